@@ -103,6 +103,8 @@ def run(args):
         if x["s1_errs"]:
             if prog is not None:
                 raise C.Machinery("generated program %s does not parse: %s" % (label, x["s1_errs"][:2]))
+            if feat.get("family") == "forms-file":
+                raise C.Machinery("the form file %s does not parse: %s" % (label, x["s1_errs"][:2]))
             continue        # a repository file that is not syntactically valid: nothing to print
         # (1) the parsed form
         if x.get("s2_errs"):
@@ -111,14 +113,18 @@ def run(args):
             rep.fail(dict(feat, kind="printing-is-no-fixed-point", form="parsed"), {"program": src[:3000], "first": x["s1"][:3000], "second": x["s2"][:3000]})
         if x["accepted"] and not x.get("s2_errs") and not x.get("s1_accepted"):
             rep.fail(dict(feat, kind="printed-text-rejected", form="parsed"), {"program": src[:3000], "printed": x["s1"][:3000], "errors": x.get("s1_an_errs", [])[:4]})
+        elif x["accepted"] and x.get("s1_accepted") and x.get("s1_a1") is not None and x["s1_a1"] != x["a1"]:
+            # what the analysis sees of the printed text is what it sees of the original: nothing it keeps was lost in print
+            rep.fail(dict(feat, kind="printed-text-analysed-differently", form="parsed"),
+                     {"program": src[:3000], "printed": x["s1"][:3000], "analysed_original": x["a1"][:2000], "analysed_printed": x["s1_a1"][:2000]})
         # (2) the analysed form
         if x["accepted"]:
             if not x.get("a1_accepted"):
                 rep.fail(dict(feat, kind="printed-text-rejected", form="analyzed"), {"program": src[:3000], "printed": x["a1"][:3000], "errors": x.get("a2_errs", [])[:4]})
             elif x.get("a2") != x["a1"]:
                 rep.fail(dict(feat, kind="printing-is-no-fixed-point", form="analyzed"), {"program": src[:3000], "first": x["a1"][:3000], "second": x["a2"][:3000]})
-        elif prog is not None:
-            raise C.Machinery("generated program %s is not accepted: %s" % (label, x.get("a1_errs", [])[:2]))
+        elif prog is not None or feat.get("family") == "forms-file":
+            raise C.Machinery("program %s is not accepted: %s" % (label, x.get("a1_errs", [])[:2]))
         if not x["accepted"]:
             continue
         # (3) behaviour
